@@ -2,7 +2,9 @@ CONSTANTS
   IterLimit = 3
   NodeLimit = 2
   MaxNodes = 4
+  TimeLimit = 2
+  MaxClock = 4
 SPECIFICATION SpecRunner
-INVARIANTS TypeOK BoundedRunner TruthRunner
+INVARIANTS TypeOK BoundedRunner TruthRunner MustStopRunner
 PROPERTY Terminates
 CHECK_DEADLOCK FALSE
